@@ -18,6 +18,9 @@ class Num (α : Type) extends Add α, Sub α, Mul α, Div α, Neg α where
   mu0 : α
   lt : α → α → Bool
   eq0 : α → Bool
+  log : α → α
+  /-- `atan2 y x` -/
+  atan2 : α → α → α
 
 variable {α : Type} [Num α]
 open Num
@@ -88,6 +91,82 @@ def segmentH (cur : α) (p1 p2 po : V3 α) : V3 α :=
   let c := segmentCore (vd p1 n12) (vd p2 n12) (vd po n12)
   vs (c.1 / c.2.1 / n12 * cur / (n 4 * pi)) c.2.2
 
+/-- the six closed-form factors of `magnet_cuboid_Bfield` as functions of the corner offsets
+`x∓a, y∓b, z∓c` (observer already reflected into the bottom-Q4 octant) -/
+structure CuboidFF (α : Type) where
+  ff1x : α
+  ff1y : α
+  ff1z : α
+  ff2x : α
+  ff2y : α
+  ff2z : α
+
+def cuboidFF (xma xpa ymb ypb zmc zpc : α) : CuboidFF α :=
+  let xma2 := xma * xma
+  let xpa2 := xpa * xpa
+  let ymb2 := ymb * ymb
+  let ypb2 := ypb * ypb
+  let zmc2 := zmc * zmc
+  let zpc2 := zpc * zpc
+  let mmm := sqrt (xma2 + ymb2 + zmc2)
+  let pmp := sqrt (xpa2 + ymb2 + zpc2)
+  let pmm := sqrt (xpa2 + ymb2 + zmc2)
+  let mmp := sqrt (xma2 + ymb2 + zpc2)
+  let mpm := sqrt (xma2 + ypb2 + zmc2)
+  let ppp := sqrt (xpa2 + ypb2 + zpc2)
+  let ppm := sqrt (xpa2 + ypb2 + zmc2)
+  let mpp := sqrt (xma2 + ypb2 + zpc2)
+  { ff2x := log ((xma + mmm) * (xpa + ppm) * (xpa + pmp) * (xma + mpp)) -
+      log ((xpa + pmm) * (xma + mpm) * (xma + mmp) * (xpa + ppp)),
+    ff2y := log ((-ymb + mmm) * (-ypb + ppm) * (-ymb + pmp) * (-ypb + mpp)) -
+      log ((-ymb + pmm) * (-ypb + mpm) * (ymb - mmp) * (ypb - ppp)),
+    ff2z := log ((-zmc + mmm) * (-zmc + ppm) * (-zpc + pmp) * (-zpc + mpp)) -
+      log ((-zmc + pmm) * (zmc - mpm) * (-zpc + mmp) * (zpc - ppp)),
+    ff1x := atan2 (ymb * zmc) (xma * mmm) - atan2 (ymb * zmc) (xpa * pmm) - atan2 (ypb * zmc) (xma * mpm) +
+      atan2 (ypb * zmc) (xpa * ppm) - atan2 (ymb * zpc) (xma * mmp) + atan2 (ymb * zpc) (xpa * pmp) +
+      atan2 (ypb * zpc) (xma * mpp) - atan2 (ypb * zpc) (xpa * ppp),
+    ff1y := atan2 (xma * zmc) (ymb * mmm) - atan2 (xpa * zmc) (ymb * pmm) - atan2 (xma * zmc) (ypb * mpm) +
+      atan2 (xpa * zmc) (ypb * ppm) - atan2 (xma * zpc) (ymb * mmp) + atan2 (xpa * zpc) (ymb * pmp) +
+      atan2 (xma * zpc) (ypb * mpp) - atan2 (xpa * zpc) (ypb * ppp),
+    ff1z := atan2 (xma * ymb) (zmc * mmm) - atan2 (xpa * ymb) (zmc * pmm) - atan2 (xma * ypb) (zmc * mpm) +
+      atan2 (xpa * ypb) (zmc * ppm) - atan2 (xma * ymb) (zpc * mmp) + atan2 (xpa * ymb) (zpc * pmp) +
+      atan2 (xma * ypb) (zpc * mpp) - atan2 (xpa * ypb) (zpc * ppp) }
+
+/-- reflection into the bottom-Q4 octant: which coordinates are flipped -/
+structure CuboidFlip where
+  fx : Bool
+  fy : Bool
+  fz : Bool
+  deriving DecidableEq, Repr
+
+def cuboidFlip (obs : V3 α) : CuboidFlip :=
+  { fx := lt obs.x (n 0), fy := lt (n 0) obs.y, fz := lt (n 0) obs.z }
+
+/-- reflected observer -/
+def cuboidReflect (obs : V3 α) : V3 α :=
+  let fl := cuboidFlip obs
+  ⟨if fl.fx then obs.x * (-(n 1)) else obs.x, if fl.fy then obs.y * (-(n 1)) else obs.y,
+   if fl.fz then obs.z * (-(n 1)) else obs.z⟩
+
+/-- assemble B from the six factors, the polarization and the sign flips (`qsigns`) -/
+def cuboidAssemble (fl : CuboidFlip) (pol : V3 α) (F : CuboidFF α) : V3 α :=
+  let sg (fx fy fz : α) : α :=
+    (if fl.fx then fx else n 1) * (if fl.fy then fy else n 1) * (if fl.fz then fz else n 1)
+  let p1 : α := n 1
+  let m1 : α := -(n 1)
+  let bx := pol.x * F.ff1x * sg p1 p1 p1 + pol.y * F.ff2z * sg m1 m1 p1 + pol.z * F.ff2y * sg m1 p1 m1
+  let by' := pol.x * F.ff2z * sg m1 m1 p1 + pol.y * F.ff1y * sg p1 p1 p1 + (-pol.z) * F.ff2x * sg p1 m1 m1
+  let bz := pol.x * F.ff2y * sg m1 p1 m1 + (-pol.y) * F.ff2x * sg p1 m1 m1 + pol.z * F.ff1z * sg p1 p1 p1
+  vd (⟨bx, by', bz⟩ : V3 α) (n 4 * pi)
+
+/-- `magnet_cuboid_Bfield` for one row (general case: observer off the edges) -/
+def cuboidB (dim pol obs : V3 α) : V3 α :=
+  let r := cuboidReflect obs
+  let a := dim.x / n 2
+  let b := dim.y / n 2
+  let c := dim.z / n 2
+  cuboidAssemble (cuboidFlip obs) pol (cuboidFF (r.x - a) (r.x + a) (r.y - b) (r.y + b) (r.z - c) (r.z + c))
+
 /-! ### mask dispatch of the magnet wrappers; `core` is the closed-form core function's value -/
 
 /-- `BHJM_magnet_cuboid`: masks as computed by the code -/
@@ -122,6 +201,11 @@ def wrapB (f : Field) (inside general : Bool) (pol coreB : V3 α) : V3 α :=
   | .M => vd (if inside then pol else zero3) mu0
   | .B => if general then coreB else zero3
   | .H => vd ((if general then coreB else zero3) - (if inside then pol else zero3)) mu0
+
+/-- `BHJM_magnet_cuboid` for one row: masks, core in the general case, field selection -/
+def bhjmCuboid (f : Field) (dim pol x : V3 α) : V3 α :=
+  let m := cuboidMasks dim pol x
+  wrapB f m.inside m.general pol (cuboidB dim pol x)
 
 /-- wrapper whose core returns the **surface-charge field** μ₀H (Tetrahedron, TriangularMesh:
 sum of triangle fields), inside term added for B -/
